@@ -44,7 +44,7 @@ var (
 )
 
 type c08Case struct {
-	Scenario string            `json:"scenario"` // S1 .. S10
+	Scenario string            `json:"scenario"` // S1 .. S11
 	Victim   int               `json:"victim"`
 	Crash    []shmx.CrashPoint `json:"crash"`
 }
@@ -87,6 +87,12 @@ func c08Spec(cs c08Case) shmx.Spec {
 		if cs.Victim != 2 {
 			panic("C08 scenario S10 is defined for victim 2 (the keyper outside the genesis configuration)")
 		}
+	}
+	if cs.Scenario == "S11" {
+		// all honest; the keypers vote for the new set when its activation block has
+		// already passed on the main chain, so shuttermint starts the configuration as
+		// soon as it is accepted (a vote re-sent after a crash meets a started configuration)
+		spec.Setup.L1Past = true
 	}
 	if cs.Scenario == "S3" {
 		// all honest; the third keyper is one block slower at the start of the
@@ -790,7 +796,7 @@ func errorPoints(twin *c08Run) []shmx.CrashPoint {
 func c08() *report.Check {
 	return &report.Check{
 		Level: "fault_enumeration",
-		Rule: "complete key generations (n=3, t=2) through fakeshm with real keypers on minipg; S1 all honest, S2 a scripted third keyper deals a wrong evaluation to the victim and accuses it falsely (the victim accuses and apologises), S3 all honest with the third keyper one block slower in the dealing phase, S4 / S5 all honest with the victim itself pausing one block at the start of the dealing / accusing phase (its next sync round then handles two blocks), S6 the first key generation fails on chain because the two other keypers sleep through its dealing phase and shuttermint restarts it as a second eon, which succeeds (crash points in both eons), S7 one of the other keypers is started late, so that its check-in (with its encryption key) arrives after the eon has started and the victim's evaluation for it waits in the database in between, S8 the scripted third keyper deals correctly, is not accused, and publishes an unsolicited apology with wrong values (the honest keypers exclude it), S9 all honest with the victim always taking its step last in a block (its messages, in particular its DKG result, are the last of their kind to reach shuttermint), S10 all honest with the victim (keyper 2) outside shuttermint's genesis configuration: it becomes a keyper and checks in only with the batch config of the new set. A crash-free twin numbers the victim's database round trips (N) and shuttermint RPC calls (M). " +
+		Rule: "complete key generations (n=3, t=2) through fakeshm with real keypers on minipg; S1 all honest, S2 a scripted third keyper deals a wrong evaluation to the victim and accuses it falsely (the victim accuses and apologises), S3 all honest with the third keyper one block slower in the dealing phase, S4 / S5 all honest with the victim itself pausing one block at the start of the dealing / accusing phase (its next sync round then handles two blocks), S6 the first key generation fails on chain because the two other keypers sleep through its dealing phase and shuttermint restarts it as a second eon, which succeeds (crash points in both eons), S7 one of the other keypers is started late, so that its check-in (with its encryption key) arrives after the eon has started and the victim's evaluation for it waits in the database in between, S8 the scripted third keyper deals correctly, is not accused, and publishes an unsolicited apology with wrong values (the honest keypers exclude it), S9 all honest with the victim always taking its step last in a block (its messages, in particular its DKG result, are the last of their kind to reach shuttermint), S10 all honest with the victim (keyper 2) outside shuttermint's genesis configuration: it becomes a keyper and checks in only with the batch config of the new set, S11 all honest voting for the new set after its activation block has passed (the configuration is started right after it is accepted). A crash-free twin numbers the victim's database round trips (N) and shuttermint RPC calls (M). " +
 			"quick: victim 0, all scenarios, every single crash point (single transient errors: S2 only): every round trip and every RPC call x {before it is sent, applied but reply lost}; additionally every single transient error (a database round trip refused, an RPC call failing before / after the chain executed it) after which the keyper re-enters its loop with the same in-memory objects. thorough: both victims, all scenarios, all single points, and for S1/S2 every pair (first point: every state-changing autocommit statement and BroadcastTxCommit in both modes, read-only requests before only, per transaction before BEGIN / before COMMIT / after COMMIT; second point: each of the next 60 round trips and 6 RPC calls after the restart, both modes). " +
 			"A crash drops the open transaction and every in-memory object; the keyper is rebuilt like KeyperCore.Start and runs on to a fixed horizon. Oracle at every commit point of the victim's database: current_block advances by one, block-driven tables change only together with current_block, queued/sent commitments and evaluations equal the stored polynomial; at the horizon: every block once, one commitment per eon, sent evaluations verify, outbox empty and delivered in id order, same outcome / accepted message kinds / per-block database structure as the twin, C07's agreement oracle.",
 		Assumptions: []string{
@@ -808,10 +814,10 @@ func c08() *report.Check {
 				errors   bool // also every single transient error
 				pairs    bool // also crash pairs (thorough)
 			}
-			jobs := []job{{"S1", 0, false, true}, {"S2", 0, true, true}, {"S3", 0, false, false}, {"S4", 0, false, false}, {"S5", 0, false, false}, {"S6", 0, false, false}, {"S7", 0, false, false}, {"S8", 0, false, false}, {"S9", 0, false, false}, {"S10", 2, false, false}}
+			jobs := []job{{"S1", 0, false, true}, {"S2", 0, true, true}, {"S3", 0, false, false}, {"S4", 0, false, false}, {"S5", 0, false, false}, {"S6", 0, false, false}, {"S7", 0, false, false}, {"S8", 0, false, false}, {"S9", 0, false, false}, {"S10", 2, false, false}, {"S11", 0, false, false}}
 			if c.Thorough {
 				jobs = []job{{"S1", 0, true, true}, {"S2", 0, true, true}, {"S3", 0, true, false}, {"S1", 1, true, true}, {"S2", 1, true, true}, {"S3", 1, true, false},
-					{"S4", 0, true, false}, {"S5", 0, true, false}, {"S4", 1, true, false}, {"S5", 1, true, false}, {"S6", 0, true, false}, {"S6", 1, false, false}, {"S7", 0, true, false}, {"S7", 1, true, false}, {"S8", 0, true, false}, {"S8", 1, true, false}, {"S9", 0, true, false}, {"S9", 1, true, false}, {"S10", 2, true, false}}
+					{"S4", 0, true, false}, {"S5", 0, true, false}, {"S4", 1, true, false}, {"S5", 1, true, false}, {"S6", 0, true, false}, {"S6", 1, false, false}, {"S7", 0, true, false}, {"S7", 1, true, false}, {"S8", 0, true, false}, {"S8", 1, true, false}, {"S9", 0, true, false}, {"S9", 1, true, false}, {"S10", 2, true, false}, {"S11", 0, true, false}, {"S11", 1, true, false}}
 			}
 			unit := 0
 			runCase := func(cs c08Case, twin *c08Run) {
